@@ -1,7 +1,7 @@
 """C06: typed Builder stores and Slice loads are mutually inverse and bit-exact (TL-B encodings)."""
 from ..gen import cells as G
 from ..gen import scripts as S
-from ..translate import arith
+from ..translate import arith, bsops
 
 SPEC = dict(
     manifest=dict(
@@ -22,7 +22,9 @@ SPEC = dict(
                    'long snake chains. Trusted: Spec/TlbPrim.lean + Spec/TlbVal.lean say what TL-B says; Lean kernel; harness/gen/scripts.py.',
         technique='Lean 4 proof (hand model, OpSpec calculus + closed forms of the slice reads) + differential correspondence with the library '
                   '+ source-regenerated arithmetic lemmas'),
-    translators=[('builder.py var-int byte lengths->Generated/VarLen.lean', arith.regenerator('VarLen'))],
+    translators=[('builder.py var-int byte lengths->Generated/VarLen.lean', arith.regenerator('VarLen')),
+                 ('builder.py/tvm_bitarray.py store_* methods->Generated/BuilderOps.lean', bsops.regenerator('BuilderOps')),
+                 ('slice.py/tvm_bitarray.py load_*/preload_* methods->Generated/SliceOps.lean', bsops.regenerator('SliceOps'))],
     design_ref='DESIGN.md §6 C06',
     rule='seeded sequences of typed values that fit a cell (ints of widths 1..257 at 0/1/max/top-bit/min/-1, var-ints of every byte-length '
          'class incl. top-bit-set values, coins, bits, bytes, refs, maybe-refs, addr_none/extern(len 0..511)/std(+anycast)), snake byte strings '
@@ -281,10 +283,56 @@ def src_search(ctx, cells):
     return len(ctx.failures) > n0
 
 
+LOAD_TO_STORE = {'lu': 'u', 'pu': 'u', 'li': 'i', 'pi': 'i', 'lvu': 'vu', 'pvu': 'vu', 'lvi': 'vi', 'pvi': 'vi', 'lc': 'c', 'pc': 'c', 'lb': 'b', 'pb': 'b',
+                 'lby': 'by', 'pby': 'by', 'bit': 'bit', 'pbit': 'bit', 'lbool': 'bit', 'pbool': 'bit', 'sk': 'b', 'lr': 'r', 'lmr': 'mr', 'pmr': 'mr'}
+
+
+def src_search_methods(ctx):
+    """Search mode only: where a regenerated METHOD (Generated/BuilderOps.lean, SliceOps.lean) differs from the hand model it is proved
+    equal to (evaluated by Lean on the validation scripts), the store / load of that kind at that fill level goes through the round-trip
+    oracle.  True = a concrete failing input was found."""
+    n0 = len(ctx.failures)
+    dag = [tuple(n) for n in bsops.CTX_DAG]
+    cells = G.lib_build(dag)
+    kinds = []
+    for (fb, fr, toks), idx in bsops.diff_scripts(ctx, 'B', bsops.builder_scripts()):
+        for i in idx:
+            k = toks[i].split(':')[0]
+            if k not in kinds:
+                kinds.append(k)
+    for (bits, refs, toks), idx in bsops.diff_scripts(ctx, 'S', bsops.slice_scripts()):
+        for i in idx:
+            k = LOAD_TO_STORE.get(toks[i].split(':')[0])
+            if k and k not in kinds:
+                kinds.append(k)
+    kinds = ['bit' if k in ('bool', 'bi') else k for k in kinds]
+    if any(k in ('cell', 'sl') for k in kinds):
+        kinds += ['b', 'r']
+    seen = set()
+    for fb, fr, toks in bsops.builder_scripts():
+        for t in toks:
+            k = t.split(':')[0]
+            if k not in kinds or t in seen or (k == 'bit' and t not in ('bit:0', 'bit:1')):
+                continue
+            seen.add(t)
+            try:
+                e = S.enc_tok(t, cells)
+            except (AssertionError, ValueError):
+                continue
+            if e is None:
+                continue
+            for pre in (0, 1, 1023 - len(e[0])):
+                if 0 <= pre and pre + len(e[0]) <= 1023:
+                    check_roundtrip(ctx, dag, cells, ([f'b:{"0" * pre}'] if pre else []) + [t] + (['bit:1'] if pre + len(e[0]) < 1023 else []), 'src-method')
+            if len(ctx.failures) > n0:
+                return True
+    return len(ctx.failures) > n0
+
+
 def run(ctx):
     rng = ctx.rng
     cells = G.lib_build(LEAF_DAG)
-    if ctx.search and src_search(ctx, cells):
+    if ctx.search and (src_search(ctx, cells) or src_search_methods(ctx)):
         return
     # context with a real dictionary cell (HashMap(8), 3 entries) for store_dict / load_dict / preload_dict
     ddag = LEAF_DAG + S.shift_dag(S.dict_dag(), len(LEAF_DAG))
